@@ -104,6 +104,17 @@ func (w *world) apply(r *rep.Report, o op) bool {
 				w.m.Put(ref.PropId(o.Id, "disabled"), map[string]interface{}{"id": o.Id, "!disabled": true, "deleteWith": []interface{}{o.Id}})
 				w.used[ref.PropId(o.Id, "disabled")] = true
 			}
+		case "propFact":
+			// a property of o.Id written in fact form; it need not say deleteWith (Deps: what it says anyway)
+			f := map[string]interface{}{"id": o.Id, "!note": "about " + o.Id}
+			if len(o.Deps) > 0 {
+				f["deleteWith"] = deps(o.Deps)
+			}
+			_, err = w.loc.AddFact(ctx, "", core.Map(ref.CloneMap(f)))
+			if err == nil {
+				w.m.Put(ref.PropId(o.Id, "note"), f)
+				w.used[ref.PropId(o.Id, "note")] = true
+			}
 		case "remFact":
 			_, err = w.loc.RemFact(ctx, o.Id)
 			if err == nil {
@@ -256,6 +267,13 @@ func genGraph(g *gen.Gen, ids []string, allowTtl bool) []op {
 		ops = append(ops, o)
 		if g.Intn(6) == 0 {
 			ops = append(ops, op{Op: "disable", Id: id})
+		}
+		if g.Intn(5) == 0 {
+			po := op{Op: "propFact", Id: id}
+			if g.Intn(3) == 0 {
+				po.Deps = []string{ids[g.Intn(n)]}
+			}
+			ops = append(ops, po)
 		}
 	}
 	return ops
